@@ -157,6 +157,12 @@ func genC11(e *emitter, tier string) {
 			e.emit(opCase("cast-wide", "Cast", []Attr{{Name: "to", Type: "i", I: int64(onnxCode[src])}}, []*TJ{{Dt: src, Shape: []int{}, Data: []any{wide[src][i]}}}, nil))
 		}
 	}
+	// large float values that fit the 64-bit integer targets (beyond int64 for uint64)
+	for _, src := range []string{"f32", "f64"} {
+		e.emit(opCase("cast-fraction", "Cast", []Attr{{Name: "to", Type: "i", I: int64(onnxCode["u64"])}}, []*TJ{fT(src, []int{6}, []float64{1e19, 9223372036854775808, 1.8e19, 4294967296.5, 0.75, 9.3e18})}, nil))
+		e.emit(opCase("cast-fraction", "Cast", []Attr{{Name: "to", Type: "i", I: int64(onnxCode["i64"])}}, []*TJ{fT(src, []int{4}, []float64{9e18, -9e18, 4294967296.5, -4294967296.5})}, nil))
+		e.emit(opCase("cast-fraction", "Cast", []Attr{{Name: "to", Type: "i", I: int64(onnxCode["u32"])}}, []*TJ{fT(src, []int{3}, []float64{4294967040, 2147483648, 3e9})}, nil))
+	}
 	e.emit(opCase("cast-attrs", "Cast", nil, []*TJ{iota1("f32", 2)}, nil))
 	e.emit(opCase("cast-attrs", "Cast", []Attr{{Name: "too", Type: "i", I: 1}}, []*TJ{iota1("f32", 2)}, nil))
 	// ConstantOfShape: every value type, shapes rank 1..4, default value, invalid extents / values
